@@ -179,6 +179,12 @@ class CurrentSchedule:
     def __init__(self, spec):
         self.spec = spec
 
+    def __eq__(self, other):
+        return isinstance(other, CurrentSchedule) and other.spec == self.spec
+
+    def __hash__(self):
+        return hash(repr(self.spec))
+
     def __call__(self, t):
         s = self.spec
         if s["kind"] == "pw":
